@@ -212,3 +212,78 @@ def r04_2(ctx):
                         if b.raw.get("impl_self_adt") != adt:
                             bad.append(b.id)
         ctx.ob("G7:cursor-fields-encapsulated", not bad and nw >= 3, adt, f"{nw} write(s) to the pos/len fields, all inside the type's own methods" if not bad else f"pos/len written from outside: {bad}")
+
+
+@rule("R04.3", 8, "use-once typestate behind take_parent().expect(): each State-bearing object is handed to exactly one driver call per construction; take_parent is reached at most once per body", ["C04"])
+def r04_3(ctx):
+    import r_c11
+
+    lib = ctx.lib
+    st, srcf, src_enum, others = r_c11._state(lib)
+    # take_parent = method of State whose body contains Option::expect / unwrap on a Cell::replace/take result
+    takers = [b for b in lib.bodies if b.raw.get("impl_self_adt") == st and any(kind_of_call(fn_of(t) or {"def": "", "name": ""}) in ("call:option.expect", "call:option.unwrap") for _, t in b.calls())]
+    ctx.need(len(takers) == 1, f"parent-taking accessor (State method with expect/unwrap) not found ({len(takers)})")
+    taker = takers[0]
+    wrappers = {p for p, a in lib.adts.items() if a["crate"] == "xt" and a["kind"] == "struct" and any(f["ty"].startswith(st + "<") for f in a["variants"][0]["fields"])}
+    n_take = 0
+    for b in lib.bodies:
+        tk = [(bb, t) for bb, t in b.calls() if ((fn_of(t) or {}).get("resolved") or (fn_of(t) or {}).get("def")) == taker.id]
+        for bb, t in tk:
+            n_take += 1
+            ctx.ob(f"take_parent:{b.name}:not-in-loop", not b.on_cycle(bb), site(b, bb), "parent is taken outside any loop of this body" if not b.on_cycle(bb) else "take_parent can execute twice for the same state (second call panics)")
+        # two takes on the same receiver in one body must be mutually exclusive
+        for i in range(len(tk)):
+            for j in range(len(tk)):
+                if i != j:
+                    a, bnode = tk[i][0], tk[j][0]
+                    ra = trace(b, tk[i][1]["args"][0])
+                    rb = trace(b, tk[j][1]["args"][0])
+                    if ra.origin == rb.origin and [s for s in ra.steps if s[0] == "field"] == [s for s in rb.steps if s[0] == "field"]:
+                        excl = bnode not in b.reachable_from(tk[i][1]["target"])
+                        ctx.ob(f"take_parent:{b.name}:exclusive:{i}-{j}", excl, site(b, bnode), "the two takes are on exclusive paths" if excl else "parent taken twice on one path")
+    ctx.ob("take_parent-sites", n_take >= 4, st, f"{n_take} take_parent call site(s)")
+    # constructions of wrapper objects and their single driver use
+    n_c = 0
+    for b in lib.bodies:
+        for cb, ct in b.calls():
+            f = fn_of(ct) or {}
+            callee = lib.by_id.get(f.get("resolved") or f.get("def"))
+            if not (callee and callee.raw.get("impl_self_adt") in wrappers and callee.local_ty(0).split("<")[0] in wrappers and callee.name == "new"):
+                continue
+            if b.raw.get("impl_self_adt") in wrappers and b.name == "new":
+                continue
+            n_c += 1
+            X = ct["dest"]["l"]
+            refs = {X}
+            for _ in range(3):
+                for bi, blk in enumerate(b.blocks):
+                    for s in blk["stmts"]:
+                        if s["k"] == "assign" and not s["p"]["pr"] and s["rv"]["k"] in ("ref",) and s["rv"]["p"]["l"] in refs and not s["rv"]["p"]["pr"]:
+                            refs.add(s["p"]["l"])
+                        if s["k"] == "assign" and not s["p"]["pr"] and s["rv"]["k"] == "ref" and s["rv"]["p"]["l"] in refs and all(e["k"] == "deref" for e in s["rv"]["p"]["pr"]):
+                            refs.add(s["p"]["l"])
+            drivers = []
+            for ub, ut in b.calls():
+                if ub == cb:
+                    continue
+                uf = fn_of(ut) or {}
+                if any(is_place(a) and a["p"]["l"] in refs and not a["p"]["pr"] for a in ut["args"]):
+                    ucallee = lib.by_id.get(uf.get("resolved") or uf.get("def"))
+                    if ucallee and ucallee.raw.get("impl_self_adt") in wrappers | {st}:
+                        # the wrapper's own helper (e.g. serialize_with_seed(self, ..)) consumes it: counts as the driver
+                        if ucallee.local_ty(1).split("<")[0] in wrappers and not ucallee.local_ty(1).startswith("&"):
+                            drivers.append((ub, uf.get("name")))
+                        continue
+                    drivers.append((ub, uf.get("name")))
+            key = f"construct:{b.raw.get('impl_self_adt', '').rsplit('::', 1)[-1]}::{b.name}:{callee.raw.get('impl_self_adt').rsplit('::', 1)[-1]}"
+            ok = len(drivers) >= 1
+            once = True
+            for ub, _ in drivers:
+                tgt = b.blocks[ub]["term"]["target"]
+                if tgt is None:
+                    continue
+                r = b.reachable_from(tgt, removed_nodes=[cb])
+                if any(vb in r for vb, _ in drivers):
+                    once = False
+            ctx.ob(key, ok and once, site(b, cb), f"handed to exactly one driver call per construction ({[n for _, n in drivers]})" if ok and once else f"object can be driven twice without being re-created ({[n for _, n in drivers]}): the second take_parent panics")
+    ctx.ob("constructions", n_c >= 5, "lib", f"{n_c} construction(s) of State-bearing objects")
